@@ -99,10 +99,9 @@ def run(rep, repo, tier):
     check_limit_plumbing(rep, repo)
 
 
-def check_limit_plumbing(rep, repo):
+def check_limit_plumbing(rep, repo, rule='C14.R6'):
     """R6: the limit handed to Solver.solve is the limit get_results compares the elapsed time with, and the one the MILP
     solver is given: model.time_limit = <timeLimit parameter> is stored before the run starts"""
-    rule = 'C14.R6'
     f = repo.method('Solver', 'solve')
     ps = [p_ for p_ in f.params if p_ != 'self']
     if len(ps) < 2:
